@@ -343,11 +343,14 @@ func (o *Operations) Update(
 		},
 
 		func(hdr *config.Header) {
-			o.onHeader(&config.HeaderEvent{
-				Type:    config.HeaderEventTypeUpdate,
-				Indexed: true,
-				Header:  hdr,
-			})
+			// The callback is optional here as well
+			if o.onHeader != nil {
+				o.onHeader(&config.HeaderEvent{
+					Type:    config.HeaderEventTypeUpdate,
+					Indexed: true,
+					Header:  hdr,
+				})
+			}
 		},
 	)
 }
